@@ -68,6 +68,23 @@ func NewThing() Thing {
 		Inner: &Thing{Name: "inner"}, Fn: func(i int) int { return i + 1 }, hidden: "h", Any: 7}
 }
 
+// UserSafe is a user-written SafeValue that does not flatten what it wraps.
+type UserSafe struct {
+	Inner stick.Value
+	Types []string
+}
+
+func (u UserSafe) Value() stick.Value { return u.Inner }
+func (u UserSafe) IsSafe(t string) bool {
+	for _, x := range u.Types {
+		if x == t {
+			return true
+		}
+	}
+	return false
+}
+func (u UserSafe) SafeFor() []string { return u.Types }
+
 // Named is a value with a label for reports.
 type Named struct {
 	Label string
@@ -107,6 +124,7 @@ func Scalars() []Named {
 		N("ptr-int", &i7), N("ptr-str", &s),
 		N("complex", complex(1, 2)), N("func", func() {}), N("chan", make(chan int)), N("struct-empty", struct{}{}),
 		N("safe-str", stick.NewSafeValue("<i>", "html")), N("safe-num", stick.NewSafeValue(5, "html")), N("safe-nested", stick.NewSafeValue(stick.NewSafeValue(stick.NewSafeValue("deep", "js"), "html"), "css")), N("safe-nil", stick.NewSafeValue(nil, "html")),
+		N("usersafe-2", UserSafe{UserSafe{"deep2", []string{"js"}}, []string{"html"}}), N("usersafe-num", UserSafe{UserSafe{UserSafe{7, nil}, nil}, nil}),
 		N("rune", 'x'), N("byte", byte('y')), N("uintptr", uintptr(9)),
 		N("time", time.Date(2020, 2, 29, 13, 4, 5, 0, time.UTC)), N("str-now", "now"), N("str-NOW", "NOW"), N("ptr-time", &time.Time{}),
 	}
@@ -132,7 +150,7 @@ func Containers() []Named {
 		N("[]string", []string{"x", "y"}), N("[]Value", []stick.Value{1, "s", nil, true}), N("[]float64", []float64{1.5, 2.5}), N("[3]int", [3]int{7, 8, 9}), N("*[3]int", &[3]int{7, 8, 9}), N("[0]int", [0]int{}),
 		N("[][]int", [][]int{{1}, {2, 3}}), N("[]Thing", []Thing{th}), N("[]*Thing", []*Thing{&th, nil}), N("[]interface{}", []interface{}{nil, 1}),
 		N("map[string]Value", m), N("*map[string]Value", &m), N("map[string]int nil", nilMap), N("map[string]Value nil", nilValMap), N("[]Value nil", nilValSlice), N("map[string]int{}", map[string]int{}), N("map[string]string", map[string]string{"k": "v", "1": "one"}),
-		N("map[int]string", map[int]string{1: "one", 2: "two"}), N("map[float64]int", map[float64]int{1.5: 15, 2: 20}), N("map[bool]int", map[bool]int{true: 1}),
+		N("map[int]string", map[int]string{1: "one", 2: "two"}), N("map[float64]int", map[float64]int{1.5: 15, 2: 20}), N("map[float64]int{NaN}", map[float64]int{math.NaN(): 1, 2: 20}), N("map[bool]int", map[bool]int{true: 1}),
 		N("map[Value]Value", map[stick.Value]stick.Value{"s": 1, 2: "two", true: 3}), N("map[uint8]int", map[uint8]int{200: 1}), N("map[ValStringer]int", map[ValStringer]int{{"k"}: 1}),
 		N("map[string][]int", map[string][]int{"l": {1, 2}}), N("map[string]map", map[string]map[string]int{"o": {"i": 1}}),
 		N("Thing", th), N("*Thing", &th), N("**Thing", func() **Thing { p := &th; return &p }()),
@@ -147,7 +165,7 @@ func Keys() []Named {
 	var nilPtr *int
 	return []Named{
 		N("'a'", "a"), N("'k'", "k"), N("'1'", "1"), N("'0'", "0"), N("'Name'", "Name"), N("'hidden'", "hidden"), N("'ValueMethod'", "ValueMethod"), N("'PtrMethod'", "PtrMethod"),
-		N("'Add'", "Add"), N("'Variadic'", "Variadic"), N("'Two'", "Two"), N("'Nothing'", "Nothing"), N("'NilFunc'", "NilFunc"), N("'Fn'", "Fn"), N("'TakesPtr'", "TakesPtr"),
+		N("'Add'", "Add"), N("'Variadic'", "Variadic"), N("'Join'", "Join"), N("'Fmt'", "Fmt"), N("'Two'", "Two"), N("'Nothing'", "Nothing"), N("'NilFunc'", "NilFunc"), N("'Fn'", "Fn"), N("'TakesPtr'", "TakesPtr"),
 		N("'TakesIface'", "TakesIface"), N("'TakesFloat'", "TakesFloat"), N("'TakesSlice'", "TakesSlice"), N("'Concat'", "Concat"), N("'hiddenMethod'", "hiddenMethod"), N("'missing'", "missing"), N("''", ""),
 		N("'Items'", "Items"), N("'Inner'", "Inner"), N("'Any'", "Any"), N("'Attrs'", "Attrs"),
 		N("0", 0), N("1", 1), N("2", 2), N("3", 3), N("-1", -1), N("100", 100), N("f1", 1.0), N("f1.5", 1.5), N("f2", 2.0), N("nan", math.NaN()), N("inf", math.Inf(1)), N("1e30", 1e30),
